@@ -2,8 +2,9 @@
 Bounded-exhaustive enumeration of the set-up argument grid and of vorbis_encode_ctl request histories (explicit-state style:
 final set-up states are deduplicated by a canonical hash and each distinct state is encoded from once), executed on the real
 library under ASan/UBSan (harness/c15_setup.c)."""
-import sys, os, time, json, re, subprocess, itertools
+import sys, os, time, json, re, subprocess, itertools, resource
 import vlib
+import c15_geom
 
 PID = 'C15'
 OV_EINVAL, OV_EIMPL, OV_EFAULT = -131, -130, -129
@@ -25,7 +26,7 @@ def tables(exe):
 
 def parse(line):
     """'ok n=.. cls=a*1,b*2 succ=.. enc=.. st=.. leak=.. bad=k@d;k@d' -> dict"""
-    d = {'n': 0, 'cls': {}, 'succ': {}, 'enc': {}, 'st': {}, 'leak': {}, 'bad': [], 'flags': []}
+    d = {'n': 0, 'cls': {}, 'succ': {}, 'enc': {}, 'st': {}, 'leak': {}, 'geo': {}, 'blk': {}, 'lpr': None, 'bad': [], 'flags': []}
     for tok in line.split(' ')[1:]:
         if '=' not in tok:
             d['flags'].append(tok)
@@ -33,6 +34,8 @@ def parse(line):
         k, v = tok.split('=', 1)
         if k == 'n':
             d['n'] = int(v)
+        elif k == 'lpr':
+            d['lpr'] = float(v)
         elif k == 'bad':
             d['bad'] = [tuple((x.split('@', 1) + ['?'])[:2]) for x in v.split(';') if x]
         elif k in d:
@@ -133,6 +136,8 @@ def desc_to_case(desc, T, pl=2, ns=4097):
     """tuple description printed by the harness -> a case line that executes exactly that tuple"""
     f = desc.split(':')
     kv = dict(x.split('=', 1) for x in f if '=' in x)
+    if 'lp' in kv and f[0] in ('vbr', 'managed'):      # a tuple of the geometry family: explicit-value case line
+        return 'L %d %s %s %s %s %s %s 0' % (f[0] == 'managed', f[1][1:], kv['ch'], kv['rate'], kv['nom'] if f[0] == 'managed' else kv['q'], kv['cpl'], kv['lp'])
     if 'pl' in kv and f[0] in ('vbr', 'managed'):      # a tuple of the signal phase: explicit-value case line
         if f[0] == 'vbr':
             return 'S 0 %s %s %s %d %s %d' % (f[1][1:], kv['ch'], kv['rate'], T['quals'].index(kv['q']), kv['pl'], ns)
@@ -156,6 +161,8 @@ def callpath(desc):
         return 'unattributed'
     if f[0] == 'ctl':
         return 'ctl:' + f[1] + ':' + f[2]
+    if any(x.startswith('cpl=') for x in f) and not (('cpl=-1' in f) and ('lp=-' in f)):
+        return 'ctl:geometry'       # geometry family with OV_ECTL_COUPLING_SET / OV_ECTL_LOWPASS_SET between setup_* and setup_init: reported with the ctl histories
     return f[0] + ':' + {'vbr:p0': 'init_vbr', 'vbr:p1': 'setup_vbr+setup_init', 'managed:p0': 'init', 'managed:p1': 'setup_managed+setup_init'}[f[0] + ':' + f[1]]
 
 
@@ -198,7 +205,7 @@ def run(tier):
             for k, v in r['succ'].items():
                 succ[k] = succ.get(k, 0) + v
             for k, v in r['enc'].items():
-                ek = (phase, ('b' + c.split(' ')[1]) if phase == 'ctl' else (c.split(' ')[3] if c[0] == 'S' else c.split(' ')[2]), k)
+                ek = (phase, ('b' + c.split(' ')[1]) if phase == 'ctl' else (c.split(' ')[3] if c[0] in 'SL' else c.split(' ')[2]), k)
                 enc[ek] = enc.get(ek, 0) + v
             for k, v in r['leak'].items():
                 leaks[k] = v
@@ -207,12 +214,13 @@ def run(tier):
             if 'WAOVERFLOW' in r['flags']:
                 notes.append('allocator table overflow in ' + c)
 
-    def phase(name, cases, plns, tag, reserve=0, absorber=None, always=0):
+    def phase(name, cases, plns, tag, reserve=0, absorber=None, always=0, step=None):
         """run cases in chunks; stop (exhaustive=False) when the wall deadline minus `reserve` is reached; the first `always` cases run regardless"""
         nonlocal exhaustive
         tt = time.time()
+        ru0 = resource.getrusage(resource.RUSAGE_CHILDREN)
         pos = 0
-        step = 4096 if tier == 'quick' else 1024
+        step = step or (4096 if tier == 'quick' else 1024)
         while pos < len(cases):
             if pos >= always and time.time() > chk.deadline - reserve:
                 exhaustive = False
@@ -226,11 +234,14 @@ def run(tier):
                 absorber(chunk, res, cp)
             pos += len(chunk)
         walls[name] = round(walls.get(name, 0) + time.time() - tt, 1)
+        ru1 = resource.getrusage(resource.RUSAGE_CHILDREN)
+        cpus[name] = round(cpus.get(name, 0) + (ru1.ru_utime - ru0.ru_utime) + (ru1.ru_stime - ru0.ru_stime), 1)
         if os.environ.get('C15_PROGRESS'):
             print('[c15] phase %s: %d/%d case lines, %.1fs (t=%.0fs)' % (name, pos, len(cases), time.time() - tt, time.time() - t0), file=sys.stderr, flush=True)
         return pos
 
     walls = {}
+    cpus = {}             # executor CPU seconds (user + system) per phase: the load-independent cost
     # ------------------------------------------------------------------ 1. VBR grid: every tuple set up (and cleared) on both call paths;
     # on the channel counts in pl1 additionally analysis_init + headerout + headerin after every success
     pl1 = sorted(set(PL1_BOUNDARY) | set(range(-1, 301, 7)))
@@ -284,6 +295,59 @@ def run(tier):
                                 cases.append('S 1 %d %d %d -1 %d -1 %d %d' % (path, ch, rate, val, 10 + sgi, nsx))
                             plns.append((10 + sgi, nsx))
     phase('signals', cases, plns, 'c15x', reserve=600, always=len(cases) if tier == 'quick' else 0)
+    # ------------------------------------------------------------------ 3c. geometry family: rate / quality / lowpass -> residue and psychoacoustic geometry,
+    # every member through the whole encode stage (>= 3 long blocks of broadband noise with one 52 dB step, so that both block sizes occur)
+    geom, geom_always = c15_geom.ordered_cases(tier)
+    G = {'cases': {}, 'encoded': {}, 'geo': {}, 'blk_both': 0, 'blk_two_sizes': 0, 'near': {}, 'near_tmpl': set(), 'below': None, 'above': None, 'exact': 0, 'modes': {}, 'refused': {}, 'done': 0, 'cpl_rc': {}}
+
+    def absorb_geom(cases, results, plns):
+        absorb('geometry', cases, results, [(100, 0)] * len(cases))
+        for c, r, meta in zip(cases, results, plns):
+            fam = meta['fam']
+            G['cases'][fam] = G['cases'].get(fam, 0) + 1
+            if r is None:
+                continue
+            G['done'] += 1
+            for k, v in r['cls'].items():
+                m = re.search(r'^([MV]):.*:ctl_coupling:(-?\d+)', k)
+                if m:
+                    ck = ('managed' if m.group(1) == 'M' else 'vbr') + ':' + m.group(2)
+                    G['cpl_rc'][ck] = G['cpl_rc'].get(ck, 0) + v
+            if not r['geo']:
+                for k in r['cls']:
+                    G['refused'][fam] = G['refused'].get(fam, 0) + 1
+                continue
+            if not r['enc'].get('geom/packets'):
+                continue
+            G['encoded'][fam] = G['encoded'].get(fam, 0) + 1
+            geo = list(r['geo'])[0]
+            G['geo'].setdefault(geo, c)
+            tl, bs = geo.split('/')[0], geo.split('/')[1].split('.')
+            mk = ('managed' if meta['managed'] else 'vbr') + ('/coupling_off' if meta['cpl'] == 0 else '') + ('/lowpass_set' if fam == 'lp' else '')
+            G['modes'][mk] = G['modes'].get(mk, 0) + 1
+            if bs[0] != bs[1]:
+                G['blk_two_sizes'] += 1
+                m = re.match(r'L(\d+)/S(\d+)', list(r['blk'])[0]) if r['blk'] else None
+                if m and int(m.group(1)) >= 3 and int(m.group(2)) >= 1:
+                    G['blk_both'] += 1
+            x = r['lpr']
+            if x is not None:
+                if x == 1.0:
+                    G['exact'] += 1
+                elif x < 1.0 and (G['below'] is None or 1.0 - x < G['below'][0]):
+                    G['below'] = (1.0 - x, c)
+                elif x > 1.0 and (G['above'] is None or x - 1.0 < G['above'][0]):
+                    G['above'] = (x - 1.0, c)
+                if 0.98 < x < 1.0:
+                    G['near'][(fam, tl)] = G['near'].get((fam, tl), 0) + 1
+
+    def run_geometry():
+        # thorough: at most 7 minutes of the budget and never into the last 8 (the quick members run regardless)
+        return phase('geometry', [l for l, m in geom], [m for l, m in geom], 'c15l', reserve=max(480, chk.deadline - (time.time() + 420)), absorber=absorb_geom,
+                     always=len(geom) if tier == 'quick' else geom_always, step=len(geom) if tier == 'quick' else None)   # quick: one chunk (no barrier between chunks)
+
+    if tier != 'quick':
+        geom_pos = run_geometry()      # thorough: the quick members always, the rest within the time slice
     # ------------------------------------------------------------------ 4. ctl histories
     states = {}      # (base, hash) -> (len, split, ops tuple, r2)
     nhist = 0
@@ -339,6 +403,7 @@ def run(tier):
 
     if tier == 'quick':
         encode_states('state_encodes', lambda k, v: v[0] <= 1 or (v[0] == 2 and k[0] in (0, 1, 3, 8)), 10, 512)
+        geom_pos = run_geometry()      # quick: every member, regardless of the deadline; last, so that the deadline-bounded phase above keeps its time
     else:
         encode_states('state_encodes', lambda k, v: v[0] <= 2, 420, 512)
     depth3_done = []
@@ -381,6 +446,8 @@ def run(tier):
         f = case.split(' ')
         if f[0] == 'S':
             pl, ns = (int(f[6]), int(f[7])) if f[1] == '0' else (int(f[8]), int(f[9]))
+        elif f[0] == 'L':
+            pl, ns = 100, 0
         else:
             pl = int(f[5]) if f[0] in 'GM' else (2 if f[5] == '1' else 0)
             ns = int(f[6]) if f[0] in 'GM' else 1100
@@ -459,8 +526,32 @@ def run(tier):
                          'encodes_by_signal': {T['signals'][int(k.split('/')[0][2:]) - 10] + '/' + k.split('/')[2]: sum(v for (p, c, kk), v in enc_by.items() if p == 'signals' and kk == k)
                                                for k in sorted({kk for (p, c, kk) in enc_by if p == 'signals'})}},
         'encodes': {'%s/ch%s/%s' % k: v for k, v in sorted(enc_by.items()) if k[1] in ('255', '6', '2', 'b0', 'b1', 'b7')},
+        'geometry_family': {
+            'what': 'set-up arithmetic rate/quality/lowpass -> floor n, residue begin/end, psy tables; every member: set-up [+COUPLING_SET 0] [+LOWPASS_SET] + setup_init, analysis_init, headerout, '
+                    'headerin, encode of 3*blocksizes[1] samples of broadband noise with one 52 dB step, flush',
+            'grids': {'lowpass_sweep': '%d channel counts x %d rates (one or two per template band) x {VBR, managed} x {as set up, OV_ECTL_COUPLING_SET 0} x lowpass/Nyquist in %d values (full sweep; %d on the coarse one) '
+                                       '+ both neighbours of exactly Nyquist + %d absolute kHz values at the 2 / 99 kHz clamps'
+                                       % (((5, 10) if tier == 'quick' else (7, 11)) + (len(c15_geom.lp_fractions(True, tier)), len(c15_geom.lp_fractions(False, tier)), len(c15_geom.lp_absolute(True, tier)))),
+                      'rate_sweep': 'channels 1,2,6 x %d rates (8000..200000 step %d, +-1 around %s) x %s' % (len(c15_geom.sweep_rates(tier)), 500 if tier == 'quick' else 100, c15_geom.BOUNDARIES,
+                                                                                                             '3 qualities' if tier == 'quick' else '5 qualities + managed'),
+                      'quality_sweep': '6ch/44100, 6ch/48000, 2ch/44100 x %d qualities -0.1..1.0 (%s)' % (len(c15_geom.sweep_quals(tier)), 'step 0.005; 0.0005 in [0.45,0.55] and +-0.002 around every tenth' if tier == 'quick'
+                                                                                                        else 'step 0.001; 0.0001 in [0.45,0.55] and +-0.003 around every tenth')},
+            'case_lines': len(geom), 'case_lines_run': geom_pos, 'cases_by_subfamily': G['cases'], 'encoded_with_packets_by_subfamily': G['encoded'], 'refused_by_setup_by_subfamily': G['refused'],
+            'encoded_by_mode': G['modes'],
+            'OV_ECTL_COUPLING_SET_0_return_codes(observation: on managed set-ups the request is refused with OV_EIMPL, a documented code; the set-up then proceeds on the unchanged template)': G['cpl_rc'],
+            'distinct_geometries(template,blocksizes,floor_n,residue type.grouping.begin-end)': len(G['geo']),
+            'distinct_geometries(template,blocksizes,residue ends)': len({c15_geom.geometry_key(g) for g in G['geo']}),
+            'distinct_templates_encoded': len({g.split('/')[0] for g in G['geo']}),
+            'two_blocksize_encodes': G['blk_two_sizes'], 'of_which_with_>=3_long_and_>=1_short_blocks': G['blk_both'],
+            'smallest_nonzero_1-lowpass/Nyquist_encoded': [G['below'][0], G['below'][1]] if G['below'] else None,
+            'smallest_nonzero_lowpass/Nyquist-1_encoded': [G['above'][0], G['above'][1]] if G['above'] else None,
+            'encodes_with_lowpass_exactly_Nyquist': G['exact'],
+            'encodes_with_lowpass/Nyquist_in_(0.98,1)_by_subfamily_and_template': {'%s/%s' % k: v for k, v in sorted(G['near'].items())},
+            'geometry_samples': [[g, c] for g, c in sorted(G['geo'].items())[::max(1, len(G['geo']) // 6)]][:6],
+        },
         'leak_observations(C13, not judged here)': leak_classes,
         'phase_wall_s': walls,
+        'phase_executor_cpu_s': cpus,
         'notes': notes,
         'samples': [{'class': k, 'phase': p, 'count': v} for (p, k), v in sorted(cls_all.items())[::max(1, len(cls_all) // 10)]][:12],
     })
@@ -474,6 +565,8 @@ def run(tier):
         'and the headers must carry the requested channels and rate',
         'managed set-ups whose hard minimum would pad every packet beyond 64 KiB are set up and header-checked but not encoded (libogg buffer growth is quadratic there); counted as bigpad_not_encoded',
         'leaks are recorded under leak:* for C13 and never judged here',
+        'geometry family: OV_ECTL_LOWPASS_SET / OV_ECTL_COUPLING_SET are only issued after a successful setup_* and before setup_init (documented order); any finite lowpass value is a legal argument '
+        '(the request clamps to 2..99 kHz); a request may return 0, OV_EINVAL or OV_EIMPL and the set-up that follows must still be memory-safe through the whole encode stage',
         'the three-step path does not promise a cleared vorbis_info on failure; only vorbis_info_clear (twice) being safe is required there',
     ]
     if not chk.violations:
@@ -494,6 +587,17 @@ def run(tier):
         chk.guard(any(v for (kk, v) in sig_managed.items()), 'the signal alphabet was encoded from managed set-ups as well')
         chk.guard(all(any(p == 'enc' and k.startswith('pl2/ns%d/' % ns) for (p, c, k) in enc_by) for ns in ENC_NS) and any(p == 'enc' and k == 'pl2/ns4097/packets' for (p, c, k) in enc_by), 'encodes of 0, 1 and 4097 samples ran')
         chk.guard(set_after_init_einval > 0 and get_after_init_ok > 0, 'set requests after setup_init were refused and get requests answered')
+        near51 = {fam: sum(v for (f_, tl), v in G['near'].items() if f_ == fam and tl.startswith('c6_')) for fam in ('lp', 'rate', 'q')}
+        chk.guard(near51['lp'] >= 150, 'geometry: >= 150 lowpass-sweep cases on the 6-channel (5.1) template with lowpass/Nyquist in (0.98,1.0) went through the encode stage (%d)' % near51['lp'])
+        chk.guard(near51['rate'] >= 1 and near51['q'] >= 2, 'geometry: the rate sweep and the quality sweep (no request) each reached the 5.1 template with table lowpass/Nyquist in (0.98,1.0) and encoded (%s)' % near51)
+        near_t = {tl for (f_, tl), v in G['near'].items() if f_ == 'lp' and v >= 10}
+        chk.guard(len(near_t) >= c15_geom.NTEMPLATES, 'geometry: every one of the %d set-up templates was encoded from with >= 10 lowpass values in (0.98,1.0) of Nyquist (%d)' % (c15_geom.NTEMPLATES, len(near_t)))
+        chk.guard(G['exact'] >= 50 and G['below'] is not None and G['below'][0] < 1e-8 and G['above'] is not None and G['above'][0] < 1e-8,
+                  'geometry: lowpass exactly at Nyquist and within 1e-8 of it on both sides was encoded')
+        chk.guard(G['blk_two_sizes'] >= 1000 and G['blk_both'] * 10 >= G['blk_two_sizes'] * 9, 'geometry: >= 90%% of the encodes with two block sizes had >= 3 long and >= 1 short block (%d of %d)' % (G['blk_both'], G['blk_two_sizes']))
+        chk.guard(all(G['encoded'].get(fam, 0) >= n for fam, n in (('lp', 3000), ('rate', 3000), ('q', 1200))), 'geometry: encodes per sub-family lowpass >= 3000, rate >= 3000, quality >= 1200 (%s)' % G['encoded'])
+        chk.guard(all(G['modes'].get(m, 0) >= 100 for m in ('vbr/lowpass_set', 'managed/lowpass_set', 'vbr/coupling_off/lowpass_set', 'managed/coupling_off/lowpass_set')),
+                  'geometry: the lowpass sweep encoded >= 100 cases in each of VBR / managed x {as set up, OV_ECTL_COUPLING_SET 0 requested} (%s)' % G['modes'])
         chk.guard(len(order) >= 20 and states_encoded >= 20, 'at least 20 distinct post-ctl set-up states were encoded from')
     return chk.finish()
 
